@@ -274,4 +274,26 @@ def run(pid, tier, replay=None):
         e["coverage"]["model_checking"] = {"TlvMC": {"distinct": g.distinct, "generated": g.generated, "shapes": 2 * n, "wall_s": round(g.wall, 1)}}
         json.dump(e, open(ev_path, "w"), indent=1)
         return rc
+    if pid == "C14":
+        wd = V.workdir(pid)
+        V.copy_spec("tlv", wd)
+        with open(os.path.join(wd, "ng.cfg"), "w") as f:
+            f.write('SPECIFICATION Spec\nCONSTANTS OutNames = "universe.ndjson" OutStrings = "strings.ndjson" Full = %s\nINVARIANT TotalOrder\nCHECK_DEADLOCK FALSE\n' % ("TRUE" if th else "FALSE"))
+        g = V.tlc(wd, "NameGen.tla", "ng.cfg", workers=4, timeout=2400)
+        if g.status != "ok" or not os.path.exists(os.path.join(wd, "universe.ndjson")):
+            raise V.Machinery("NameGen did not pass: %s %s\n%s" % (g.status, g.name, g.out[-2000:]))
+        binary = V.build_harness(wd)
+        rc = sweep(pid, tier, "tlv", [], binary, wd,
+            [("TestNames", {"VERIF_NAMES": os.path.join(wd, "universe.ndjson"), "VERIF_STRINGS": os.path.join(wd, "strings.ndjson"), "VERIF_PAIRS": 600000 if th else 60000}, "names.ndjson")],
+            "NameTrace.tla", 'SPECIFICATION TSpec\nCONSTANTS TraceFile = "@TRACE@"\n',
+            "TLC (NameGen) enumerates a universe of 1118 names (types {1,8,32,50,54,65535}; values over {00 '.' '..' '...' '%' '/' '=' 'A' FF, two- and three-byte values, all 256 single bytes}; up to 3 components) "
+            "and 1206 parser inputs over separators/escapes/type markers, and proves NameCmp a total order on it; the real Compare/Equal/IsPrefix/Hash/PrefixHash/Bytes/NameFromBytes/String/NameFromStr "
+            "are evaluated on every name, on random / identical / neighbouring / prefix-related pairs, and on every parser input (4 variants each); every observation judged by NameOrder",
+            ["TLC, JVM, Go runtime trusted", "hash agreement is checked as 'equal names hash equally' and prefix-hash = hash of prefix (collisions are not a violation)"])
+        ev_path = os.path.join(V.VERIF, "evidence", pid + ".json")
+        e = json.load(open(ev_path))
+        e["coverage"]["states"], e["coverage"]["transitions"] = max(1, g.distinct), max(1, g.generated)
+        e["coverage"]["model_checking"] = {"NameGen": {"universe": 1118, "total_order_proved_on": "whole universe" if th else "close-pairs subset", "wall_s": round(g.wall, 1)}}
+        json.dump(e, open(ev_path, "w"), indent=1)
+        return rc
     raise V.Machinery("not built yet: " + pid)
